@@ -26,7 +26,7 @@ vars == <<l, nbad>>
 RInit == l = 1 /\ nbad = 0
 RNext == /\ l <= Len(Rows)
          /\ LET r == Rows[l]  ok == RowOK(r) IN
-            /\ (IF ok THEN TRUE ELSE PrintT(<<"MISMATCH", r.id, Expected(r)>>))
+            /\ (IF ok THEN TRUE ELSE PrintT(<<"MISMATCH", r.id, ToJson(Expected(r))>>))
             /\ nbad' = IF ok THEN nbad ELSE nbad + 1
             /\ (IF l < Len(Rows) THEN TRUE ELSE PrintT(<<"DONE", Len(Rows), nbad'>>))
          /\ l' = l + 1 /\ UNCHANGED tok
